@@ -16,6 +16,7 @@
   ids are pairwise distinct per index (`Distinct`).  The defect is design-level (known finding).
 -/
 import MM.Lemmas.C16
+import MM.Model.C16x
 import MM.Gen.LockC16
 
 namespace MM.C16
@@ -197,6 +198,23 @@ theorem C16_partial {t : Table} {e : Entry} (hc : Consistent t) (hl : Live t e) 
     · next u hu => simp [hno u hu]
     · rfl
 
+
+
+/-- **An agent that is exit endpoint and transit at once.**  Whatever records its exit handler holds
+    (keyed by bare stream id — possibly the same number), the frames of a live relayed tunnel are
+    forwarded on the tunnel's own leg and never reach the exit handler: the relay table, which is
+    disambiguated by source peer, is consulted first. -/
+theorem C16_relay_frames_never_reach_exit (n : Node) {e : Entry} (hc : Consistent n.a.tcp) (hl : Live n.a.tcp e)
+    (serial : Nat) :
+    n.data e.upPeer e.upId serial = (n, [⟨e.downPeer, "data", e.downId⟩], []) := by
+  have := (C16_partial hc hl).1
+  simp [Node.data, this]
+
+/-- … and a frame no relay entry claims is handled by the exit handler alone (the relay tables are
+    untouched). -/
+theorem C16_unclaimed_frame_leaves_relay_untouched (n : Node) (peer id serial : Nat)
+    (h : n.a.tcp.route peer id = none) : (n.data peer id serial).1.a = n.a := by
+  simp [Node.data, h]
 
 /-- `Distinct`: no two records of one agent share a bare stream id in the same index. -/
 def Distinct (es : List Entry) : Prop := es.Pairwise (fun a b => a.upId ≠ b.upId ∧ a.downId ≠ b.downId)
